@@ -93,3 +93,75 @@ def post_first_on_ties(S):
 c.ensures(post_member_or_default, "an-ancestor-entry-or-the-allow-all-default-when-none")
 c.ensures(post_nearest, "no-listed-ancestor-is-nearer")
 c.ensures(post_first_on_ties, "first-listed-on-ties")
+
+
+# ------------------------------------------------------------------------------------ permission tables of ANY length
+from pyvc.objseq import ObjSeq  # noqa: E402
+
+SS = models_path.SS
+PARTS = z3.Array("perm_parts", z3.IntSort(), SS)
+READ = z3.Array("perm_readable", z3.IntSort(), z3.BoolSort())
+WRITE = z3.Array("perm_writable", z3.IntSort(), z3.BoolSort())
+
+# Permission.is_parent through its contract (proved above): the boolean "lexical ancestor-or-self"
+cs = contract(SERVER, "Permission.is_parent", props=[], name="Permission.is_parent#summary")
+cs.self_check = False
+cs.pure = True
+cs.result_shape = lambda S: S.it.mk_bool(is_prefix(S.vars["self"].fields["path"], S.it.call(S.it.model_modules["pathlib"].attrs["PurePosixPath"], [S.vars["other"]], {}) if not isinstance(S.vars["other"], PathVal) else S.vars["other"]))
+
+
+def setup_get_permissions_any(u):
+    it = u.it
+    cls = u.cls(SERVER, "Permission")
+
+    def make(it_, idx):
+        o = Obj(cls, tag="perm[i]")
+        o.fields["path"] = PathVal("posix", "/", PARTS[idx], abs_known=True)
+        o.fields["readable"] = SV("bool", READ[idx])
+        o.fields["writable"] = SV("bool", WRITE[idx])
+        return o
+
+    table = ObjSeq("permissions", make)
+    user = Obj(u.cls(SERVER, "User"), tag="user")
+    user.fields["permissions"] = table
+    path = PathVal("posix", "/", fresh_seq("vpath"), abs_known=True)
+    return it.getattr_(user, "get_permissions"), [path], {}, {"self": user, "path": path, "table": table}
+
+
+c = contract(SERVER, "User.get_permissions", props=["C04"], name="User.get_permissions#any-table")
+c.setup = setup_get_permissions_any
+c.uses = [(SERVER, "Permission.is_parent#summary")]
+c.assumptions.append("T-py filter/min: filter keeps exactly the elements satisfying the predicate, in order; min(key=, default=) returns the default for an empty iterable and otherwise the FIRST element with the smallest key (pyvc/objseq.py); the table is a list of any length whose entries are Permission objects with absolute posix paths")
+c.opts = {"solve_budget_s": 60}
+
+
+def _pref(i, path):
+    return z3.PrefixOf(PARTS[i], path.parts)
+
+
+def any_post(S):
+    """nearest-ancestor rule for a table of any length: the result is the first listed entry among the deepest listed
+    ancestors-or-self of the path; without any, the allow-all default"""
+    it = S.it
+    res, table, path = S.result, S.vars["table"], S.vars["path"]
+    i = z3.Int("i!post")
+    rng = z3.And(i >= 0, i < table.n)
+    if getattr(res, "seq_of", None) is table:
+        j = res.seq_index
+        lj = z3.Length(PARTS[j])
+        return z3.And(
+            j >= 0,
+            j < table.n,
+            _pref(j, path),
+            z3.ForAll([i], z3.Implies(z3.And(rng, _pref(i, path)), z3.And(z3.Length(PARTS[i]) <= lj, z3.Implies(i < j, z3.Length(PARTS[i]) < lj)))),
+        )
+    flags = z3.And(tt(it.truthy_term(res.fields["readable"])), tt(it.truthy_term(res.fields["writable"])))
+    root = z3.Length(res.fields["path"].parts) == 0
+    return z3.And(z3.ForAll([i], z3.Implies(rng, z3.Not(_pref(i, path)))), flags, root)
+
+
+def tt(x):
+    return z3.BoolVal(x) if isinstance(x, bool) else (x.t if isinstance(x, SV) else x)
+
+
+c.ensures(any_post, "deepest-listed-ancestor-first-on-ties-or-the-allow-all-default-when-none")
